@@ -1,7 +1,7 @@
 (* Proofs about the model of sm4_gcm.go (SM4/GCMModel.v) against SP 800-38D (SM4/GCMSpec.v), for an
    abstract block cipher.  Property theorems are restated in Props/C12.v. *)
 From Coq Require Import List NArith Arith Bool Lia ZifyN ZifyNat ZifyBool Btauto.
-From GmsmVerif Require Import Lib.Outcome SM4.SM4Spec SM4.SM4Proofs SM4.ModesSpec SM4.ModesModel SM4.ModesProofs
+From GmsmVerif Require Import Lib.Outcome SM4.SM4Spec SM4.SM4Lemmas SM4.ModesSpec SM4.ModesModel SM4.ModesProofs
   SM4.GCMSpec SM4.GCMField SM4.GCMModel.
 Import ListNotations.
 Local Open Scope nat_scope.
